@@ -41,6 +41,26 @@ dump("C05", "distributions-then-plain-numbers",
 dump("C05", "seeded-C05-b2-parallel-replicates",
      dict(chain, families=[dict(fam[0], n=6)], x0=[6, 0, 0], runs=300, np_seed=20260930, parallel=True))
 
+# seeded C05-c2 (third round): `_extractObservationAtTime` took the FIRST requested time to be t0.  Grids whose first point lies after
+# t0 - t[1:] of a linspace as ndarray, a non-uniform list, a one-point ndarray - judged at every requested time
+fam2 = [{"states": ["A", "B", "C"], "edges": [[1, 2, "k0BC"], [0, 1, "k0AB"]], "n": 25, "start": 0}, {"states": ["U", "V"], "edges": [[0, 1, "k1UV"]], "n": 12, "start": 0}]
+chain2 = {"kind": "chain", "families": fam2, "params": {"k0BC": 0.75, "k0AB": 1.0, "k1UV": 0.5}, "x0": [25, 0, 0, 12, 0], "t0": 0.0, "horizon_kind": "grid",
+          "runs": 1500, "np_seed": 20260931, "alpha": ALPHA, "x0_form": "arr_int", "t0_form": "np_f64", "chunk": 500}
+dump("C05", "seeded-C05-c2-grid-starting-after-t0-linspace-tail",
+     dict(chain2, times=[0.5, 1.0, 1.5, 2.0], grid_shape="after_t0", grid_form="array"))
+dump("C05", "seeded-C05-c2-grid-starting-after-t0-nonuniform-list",
+     dict(chain2, times=[0.4, 1.0, 2.5], grid_shape="nonuniform_after_t0", grid_form="list", np_seed=20260932, x0_form="list_float"))
+dump("C05", "seeded-C05-c2-one-point-grid",
+     dict(chain2, times=[1.0], grid_shape="one_point", grid_form="array", np_seed=20260933, chunk=7))
+# seeded C05-c1: a path that is absorbed before the horizon keeps its last event (zero-rate event declared first; raw output and a
+# grid that extends past absorption)
+fam3 = [{"states": ["A", "B", "C"], "edges": [[2, 0, "z0CA"], [1, 2, "k0BC"], [0, 1, "k0AB"]], "n": 6, "start": 0}]
+chain3 = {"kind": "chain", "families": fam3, "params": {"z0CA": 0.0, "k0BC": 2.0, "k0AB": 1.0}, "x0": [6, 0, 0], "t0": 1.5, "runs": 1000, "np_seed": 20260934,
+          "alpha": ALPHA, "x0_form": "tuple_int", "t0_form": "np_f64", "chunk": 250}
+dump("C05", "seeded-C05-c1-absorbed-before-the-horizon-scalar", dict(chain3, times=[41.5], horizon_kind="scalar", grid_shape=None, grid_form=None))
+dump("C05", "seeded-C05-c1-absorbed-before-the-horizon-grid",
+     dict(chain3, times=[1.5, 2.0, 21.5, 41.5], horizon_kind="grid", grid_shape="from_t0", grid_form="tuple", np_seed=20260935))
+
 
 # ----------------------------------------------------------------------------- C16
 spec = c05.sir_spec("freq")
@@ -96,3 +116,16 @@ dump("C16", "deepcopy-detaches-frozen-distribution",
      dict(base, kind="hist", entry="param", sim=sim, pdict=pdict_frozen, grid=grid, max_steps=60,
           target={"entry": "simulate_param", "n": 2, "n_form": "int", "seed": 55},
           instances=[{"prep": "same", "grid_form": "array", "histories": [{"kind": "deepcopy", "ops": [{"op": "integrate", "grid": ogrid}, {"op": "deepcopy"}]}]}]))
+
+# seeded C16-c1 (third round): a (sampler, args) entry whose sampler draws through pygom.utilR.rbeta (wrapper `rbeta_w` of c16: rbeta
+# returns an array also for n = 1); one and three iterations, both entry points, mixed with rgamma / a frozen distribution / a number
+pdict_rbeta = [{"name": "beta", "kind": "tuple", "sampler": "rbeta_w", "args": [20.0, 20.0, 1.0]},
+               {"name": "gamma", "kind": "tuple", "sampler": "rgamma", "args": [100.0, 400.0]}]
+pdict_rbeta_mixed = [{"name": "gamma", "kind": "frozen", "dist": "gamma", "args": [100.0, 0.0, 0.0025]},
+                     {"name": "beta", "kind": "tuple", "sampler": "rbeta_w", "kwargs": {"shape1": 20.0, "shape2": 20.0, "scale": 1.0}},
+                     {"name": "N", "kind": "fixed", "value": 23.0}]
+for entry, n, pd, slug in (("solve_determ", 1, pdict_rbeta, "one-iteration"), ("simulate_param", 3, pdict_rbeta_mixed, "mixed-dict")):
+    dump("C16", "seeded-C16-c1-sampler-drawing-through-rbeta-%s-%s" % (entry, slug),
+         dict(base, kind="param", sim=dict(sim, np_seed=31337), pdict=pd, grid=grid, form="tuple", n=n,
+              A={"entry": entry, "n": n, "n_form": "int"}, B={"entry": "simulate_param" if entry == "solve_determ" else "solve_determ", "n": 2},
+              grid_form="array", prep=["none", "same"], seed2=31338, seed3=31339))
